@@ -260,6 +260,27 @@ def run(shard, seed):
                     break
             if res.full:
                 break
+            # the same pairs handed over as ROWS of one matrix (what the models do): the memory right
+            # after a vector then holds the next row, not allocator padding
+            M = np.array(list(vs) + [tuple([1e6] * d)], dtype=float)
+            for i, x in enumerate(vs):
+                for j, y in enumerate(vs):
+                    try:
+                        got = fn(M[i], M[j])
+                    except Exception as ex:
+                        got = "raised %r" % (ex,)
+                    res.transitions += 1
+                    res.nontrivial += 1
+                    prob = agree(name, got, x, y)
+                    if prob:
+                        v = viol(name, "DISTANCES", x, y, "as rows %d and %d of a %dx%d matrix: %s"
+                                 % (i, j, len(M), d, prob))
+                        v["program"]["rows_of"] = [list(r) for r in M.tolist()]
+                        v["program"]["ij"] = [i, j]
+                        res.violations.append(v)
+                        break
+                if res.full or (res.violations and "rows_of" in res.violations[-1]["program"]):
+                    break
         res.sample({"metric": name, "class": cl, "x": list(V[2][1]), "y": list(V[2][4])}, 1)
         res.outcome((name, cl))
     elif kind == "lengths":
@@ -401,11 +422,18 @@ def replay(case):
             bx[:] = p["x"]
             by[:] = p["y"]
             got = fn(bx, by)
+        elif p.get("rows_of"):
+            M = np.array(p["rows_of"], dtype=float)
+            got = fn(M[p["ij"][0]], M[p["ij"][1]])
         else:
             got = fn(np.array(p["x"], dtype=float), np.array(p["y"], dtype=float))
     except Exception as ex:
         got = "raised %r" % (ex,)
     prob = agree(p["metric"], got, tuple(p["x"]), tuple(p["y"]))
     if prob:
-        return viol(p["metric"], p["via"], p["x"], p["y"], prob)
+        v = viol(p["metric"], p["via"], p["x"], p["y"], prob)
+        for k in ("rows_of", "ij", "previous"):
+            if k in p:
+                v["program"][k] = p[k]
+        return v
     return None
